@@ -76,6 +76,18 @@ func c08Source(r *fw.Rand) (string, string) {
 		c := gen.Corpus()
 		return gen.Mutate(r, c[r.Intn(len(c))]), "mutated-corpus"
 	default:
+		if r.P(1, 100) {
+			// bodies around and beyond the code-size capacity of nested buffers
+			n := fw.PickT(r, []int{4090, 4096, 4097, 4100, 5000})
+			body := strings.TrimSuffix(strings.Repeat(r.Pick([]string{"'a'+", "1+", "x ? 1 : 2; "}), n), "+")
+			if strings.HasSuffix(body, "; ") {
+				body += "3"
+			}
+			if r.Bool() {
+				return "func bigf() { " + body + " }; bigf()", "oversized-body"
+			}
+			return "&bigc = " + body + "; bigc", "oversized-body"
+		}
 		return gen.Matrix(r), "matrix"
 	}
 }
